@@ -120,7 +120,11 @@ def number_operand(draw, shape_of, max_abs_log2=6, nonzero=False, kinds=NUM_KIND
             shape = list(draw(st.sampled_from([(3,), (1,), (2, 2), (1, 3), (2, 1)])))
             # must broadcast with the phase shape
             if shape_of:
-                shape = list(draw(st.sampled_from([tuple(shape_of), (1,) * len(shape_of), tuple(shape_of[-1:])])))
+                # same shape, broadcast-from-below, or STRICTLY LARGER than the phase (the phase is then broadcast up)
+                shape = list(draw(st.sampled_from([tuple(shape_of), (1,) * len(shape_of), tuple(shape_of[-1:]), (2,) + tuple(shape_of),
+                                                   (2,) + (1,) * len(shape_of), (3, 1) + tuple(shape_of[-1:])])))
+                if len(shape_of) == 1 and shape_of[0] == 1 and draw(st.booleans()):
+                    shape = [4]
         else:
             shape = []
         n = int(np.prod(shape)) if shape else 1
@@ -340,7 +344,7 @@ def run_muldiv(case, stt):
             r = k * p
         elif op == "div":
             r = p / k
-        elif op in ("imul", "idiv") and tuple(out_shape) == tuple(ps["shape"]) and not ks["imag"]:
+        elif op in ("imul", "idiv") and tuple(out_shape) == tuple(ps["shape"]):
             r = p.copy()
             keep = r
             if op == "imul":
@@ -348,12 +352,12 @@ def run_muldiv(case, stt):
             else:
                 r /= k
             check(r is keep, "{}: in-place operator rebound the name", what)
-        elif op == "mul_out" and not ks["imag"]:
+        elif op == "mul_out":
             import pulsarbat as pb
 
-            tgt = pb.Phase(np.zeros(out_shape), np.zeros(out_shape))
+            tgt = pb.Phase(np.ones(out_shape), np.full(out_shape, 0.25))
             if ps["imag"]:
-                tgt = tgt * 1j
+                tgt = tgt * 1j  # (the target's own kind must not leak into the result)
             r = np.multiply(p, k, out=tgt)
             check(r is tgt, "{}: np.multiply(..., out=phase) did not return the given Phase", what)
             op = "mul"
